@@ -416,6 +416,12 @@ func c10Edits() []edit {
 		{rule: "pairMemReservation", base: img(M{"mem_reservation": "32m"}), frag: M{"deploy": M{"resources": M{"reservations": M{"memory": "16m"}}}}},
 		{rule: "pairPids", base: img(M{"pids_limit": 10}), frag: lim("pids", 20)},
 		{rule: "pairPids:rev", base: img(lim("pids", 20)), frag: M{"pids_limit": 5}},
+		// structural rules below a service (round 5): they can arrive through every placement, `extends` included
+		{rule: "deviceRequest:gpus", base: img(nil), frag: M{"gpus": []any{M{"count": 1, "device_ids": []any{"0"}}}}},
+		{rule: "deviceRequest:gpus-second", base: img(M{"gpus": []any{M{"count": 1}}}), frag: M{"gpus": []any{M{"driver": "nvidia", "count": "all", "device_ids": []any{"0", "1"}}}}},
+		{rule: "deviceRequest:devices", base: img(nil), frag: M{"deploy": M{"resources": M{"reservations": M{"devices": []any{M{"capabilities": []any{"gpu"}, "count": 2, "device_ids": []any{"0"}}}}}}}},
+		{rule: "watchPath:blank", base: img(nil), frag: M{"develop": M{"watch": []any{M{"path": "", "action": "sync", "target": "/t"}}}}},
+		{rule: "watchPath:blank-second", base: img(M{"develop": M{"watch": []any{M{"path": "./src", "action": "rebuild"}}}}), frag: M{"develop": M{"watch": []any{M{"path": "", "action": "rebuild"}}}}},
 		// structural exclusivity on the merged tree
 		{rule: "externalVolume:driver", topB: M{"volumes": M{"ev": M{"external": true}}}, topF: M{"volumes": M{"ev": M{"driver": "foo"}}}, skip: noExt},
 		{rule: "externalVolume:driver_opts", topB: M{"volumes": M{"ev": M{"external": true, "name": "x"}}}, topF: M{"volumes": M{"ev": M{"driver_opts": M{"a": "b"}}}}, skip: noExt},
@@ -432,7 +438,7 @@ func c10Edits() []edit {
 	}
 }
 
-var placements = []string{"main", "override", "extends", "include", "include-split",
+var placements = []string{"main", "override", "extends", "include", "include-split", "include-nested", "include-extends",
 	"chain-override", "chain-override-rev", "chain-extends", "chain-extends-rev", "chain-include"}
 
 // applyEdit places the edit into a single-file rendering of the valid model m.
@@ -521,6 +527,25 @@ func applyEdit(m validModel, e edit, placement string) (layout, bool) {
 		} else {
 			l.files["inc.yaml"] = deepMerge(deepMerge(M{}, e.topB), e.topF)
 		}
+	case "include-nested":
+		// the violating service / resource lives in a project included by an included project (options cloned twice)
+		main["include"] = []any{"inc.yaml"}
+		l.files["inc.yaml"] = M{"include": []any{"inc2.yaml"}, "services": M{"mid": M{"image": "m"}}}
+		if svcLevel {
+			l.files["inc2.yaml"] = M{"services": M{"t": deepMerge(e.base, e.frag)}}
+		} else {
+			l.files["inc2.yaml"] = deepMerge(deepMerge(M{}, e.topB), e.topF)
+		}
+	case "include-extends":
+		// inside an included project, the completing half is inherited from a template in another file
+		if !svcLevel {
+			return layout{}, false
+		}
+		t := core.DeepCopyVal(e.base).(M)
+		t["extends"] = M{"file": "base.yaml", "service": "tmpl"}
+		main["include"] = []any{"inc.yaml"}
+		l.files["inc.yaml"] = M{"services": M{"t": t}}
+		l.files["base.yaml"] = M{"services": M{"tmpl": e.frag}}
 	case "include-split":
 		// the valid half in an included file, the completing half in an override of the including project
 		if svcLevel {
